@@ -38,6 +38,14 @@ func ruleInt64Guards(w *World, r *RuleResult) {
 		return
 	}
 	fin := w.formConsts()["Finite"]
+	// the integral and fractional parts are the two outputs of the Modf call, whatever the locals are called
+	var integBase, fracBase ssa.Value
+	for _, mc := range w.callsTo(f, "(*Decimal).Modf") {
+		if a := mc.Common().Args; len(a) == 3 {
+			integBase, fracBase = basePtr(a[1]), basePtr(a[2])
+		}
+	}
+	recvName := f.Params[0].Name()
 	type need struct {
 		name string
 		ok   func(g Guard) bool
@@ -52,18 +60,29 @@ func ruleInt64Guards(w *World, r *RuleResult) {
 		if !ok || !isK || ci(k) != 0 || w.calleeName(call) != "(*Decimal).Cmp" {
 			return false
 		}
-		return w.exprOf(f, call.Common().Args[1]).String() == global && strings.Contains(w.exprOf(f, call.Common().Args[0]).String(), "integ")
+		return w.exprOf(f, call.Common().Args[1]).String() == global && (integBase != nil && basePtr(call.Common().Args[0]) == integBase || strings.Contains(w.exprOf(f, call.Common().Args[0]).String(), "integ"))
 	}
 	needs := []need{
 		{"Form == Finite", func(g Guard) bool {
 			bo, ok := g.Cond.(*ssa.BinOp)
-			if !ok || w.exprOf(f, bo.X).String() != "d.Form" {
+			if !ok || w.exprOf(f, bo.X).String() != recvName+".Form" {
 				return false
 			}
 			k, isK := bo.Y.(*ssa.Const)
 			return isK && ci(k) == fin && ((bo.Op == token.NEQ && !g.Val) || (bo.Op == token.EQL && g.Val))
 		}},
 		{"fractional part is zero", func(g Guard) bool {
+			cond, val := g.Cond, g.Val
+			for {
+				u, isU := cond.(*ssa.UnOp)
+				if !isU || u.Op != token.NOT {
+					break
+				}
+				cond, val = u.X, !val
+			}
+			if zc, isC := cond.(*ssa.Call); isC && val && w.calleeName(zc) == "(*Decimal).IsZero" && fracBase != nil && basePtr(zc.Common().Args[0]) == fracBase {
+				return true
+			}
 			s := w.exprOf(f, g.Cond).String()
 			return strings.HasPrefix(s, "(*Decimal).IsZero(&frac") && g.Val || strings.HasPrefix(s, "!(*Decimal).IsZero(&frac") && !g.Val
 		}},
@@ -136,12 +155,13 @@ func ruleModfOrigins(w *World, r *RuleResult) {
 		r.anchorMissing("(*Decimal).Modf")
 		return
 	}
-	for _, out := range []string{"integ", "frac"} {
-		i := paramIndex(f, out)
-		if i < 0 {
-			r.anchorMissing("(*Decimal).Modf param " + out)
-			continue
-		}
+	if len(f.Params) != 3 {
+		r.anchorMissing("(*Decimal).Modf: receiver and two outputs")
+		return
+	}
+	recvN, integN, fracN := f.Params[0].Name(), f.Params[1].Name(), f.Params[2].Name()
+	for oi, out := range []string{"integ", "frac"} {
+		i := oi + 1 // the outputs by position, whatever they are called
 		key := "(*Decimal).Modf | " + out + " takes sign and form from the receiver"
 		var bad []string
 		n := map[string]int{}
@@ -150,7 +170,7 @@ func ruleModfOrigins(w *World, r *RuleResult) {
 				for _, fld := range []string{"Negative", "Form"} {
 					for _, v := range w.storedFieldValues(f, in, f.Params[i], fld, 0) {
 						n[fld]++
-						if v != "d."+fld {
+						if v != recvN+"."+fld {
 							bad = append(bad, fmt.Sprintf("%s.%s = %s at %s", out, fld, v, w.instrPos(in)))
 						}
 					}
@@ -170,20 +190,20 @@ func ruleModfOrigins(w *World, r *RuleResult) {
 		for _, st := range storesIn(f) {
 			a := w.exprOf(f, st.Addr).String()
 			v := w.exprOf(f, st.Val).String()
-			if a == "&frac.Exponent" && st.Block() == c.Block() && v != "d.Exponent" {
+			if a == "&"+fracN+".Exponent" && st.Block() == c.Block() && v != recvN+".Exponent" {
 				bad = append(bad, "the fraction's exponent is "+v+", not the receiver's")
 			}
 		}
 		// divisor is 10^(-exponent)
-		if div, ok := c.Common().Args[2].(*ssa.Call); !ok || w.calleeName(div) != "tableExp10" || w.exprOf(f, div.Common().Args[0]).String() != "-d.Exponent" {
+		if div, ok := c.Common().Args[2].(*ssa.Call); !ok || w.calleeName(div) != "tableExp10" || w.exprOf(f, div.Common().Args[0]).String() != "-"+recvN+".Exponent" {
 			bad = append(bad, "the split divisor is not 10^(-d.Exponent)")
 		}
-		if w.exprOf(f, c.Common().Args[1]).String() != "&d.Coeff" {
+		if w.exprOf(f, c.Common().Args[1]).String() != "&"+recvN+".Coeff" {
 			bad = append(bad, "the value split is not the receiver's coefficient")
 		}
 	}
 	for _, st := range storesIn(f) {
-		if w.exprOf(f, st.Addr).String() == "&integ.Exponent" && w.exprOf(f, st.Val).String() != "0" {
+		if w.exprOf(f, st.Addr).String() == "&"+integN+".Exponent" && w.exprOf(f, st.Val).String() != "0" {
 			bad = append(bad, "the integer part's exponent is stored as "+w.exprOf(f, st.Val).String())
 		}
 	}
@@ -276,7 +296,7 @@ func ruleReduceSign(w *World, r *RuleResult) {
 	n := 0
 	var bad []string
 	for _, st := range storesIn(f) {
-		if w.exprOf(f, st.Addr).String() != "&d.Negative" {
+		if w.exprOf(f, st.Addr).String() != "&"+w.destName(f)+".Negative" {
 			continue
 		}
 		n++
